@@ -147,6 +147,7 @@ class Scenario(sc.SockWorld):
                 for k in self.p.get("fail_chunks", (0, 1, 2)):
                     acts.append(("failw", k))
             acts.append(("reset",))
+            acts.append(("linkerr",))        # read side dies with ETIMEDOUT: an OSError that is not a ConnectionError
         if len(self.calls) < self.max_send:
             for pol in self.policies:
                 acts.append(("send", pol))
@@ -192,6 +193,9 @@ class Scenario(sc.SockWorld):
         elif op == "reset":
             self.nfault += 1
             self.net.live()[-1].peer_reset()
+        elif op == "linkerr":
+            self.nfault += 1
+            self.net.live()[-1].peer_reset(TimeoutError(110, "sim: connection timed out"))
         elif op == "send":
             self.submit(self.cat[len(self.calls) % len(self.cat)], a[1])
         else:
